@@ -877,6 +877,270 @@ func (j *judge) judgeTx(w txWant) {
 	if !bytes.Equal(s2, raw) {
 		j.fail("reencode", fmt.Sprintf("SerializeNew() (%d bytes) differs from the %d bytes consumed", len(s2), len(raw)))
 	}
+	if j.p != nil && len(j.fails) == 0 { // exported cases (not every mutation sub-case): the decoded object is edited and re-hashed
+		j.editStage(raw)
+	}
+}
+
+// ---------------------------------------------------------------------------------------------
+// mutate after decode: a decoded Tx is edited through its public fields (as the wallet does when it signs)
+// and the public recomputation entry points are called again; whatever they report must be that of the
+// EDITED transaction (reference: the harness' serialiser and hashes over the edited structure).
+// Contract of lib/btc, as its callers use it (wallet/signtx.go, client/rpcapi/mining.go): after an edit the
+// caller serialises again and calls SetHash(tx.SerializeNew()); SetHash(nil) re-hashes tx.Raw, i.e. the bytes
+// last given to it - calling it right after an edit, with a stale Raw, is not judged.
+// ---------------------------------------------------------------------------------------------
+
+type txEdit struct {
+	name  string
+	apply func(tx *btc.Tx, rng *rand.Rand) bool // false: not applicable to this transaction
+}
+
+func anyWitness(tx *btc.Tx) bool {
+	for _, st := range tx.SegWit {
+		if len(st) > 0 {
+			return true
+		}
+	}
+	return false
+}
+
+var txEdits = []txEdit{
+	{"scriptsig+23", func(tx *btc.Tx, rng *rand.Rand) bool { // P2SH-P2WPKH signing adds a 23-byte scriptSig
+		if len(tx.TxIn) == 0 {
+			return false
+		}
+		tx.TxIn[0].ScriptSig = append(append([]byte{}, tx.TxIn[0].ScriptSig...), rbytes(rng, 23)...)
+		return true
+	}},
+	{"scriptsig+1", func(tx *btc.Tx, rng *rand.Rand) bool {
+		if len(tx.TxIn) == 0 {
+			return false
+		}
+		i := len(tx.TxIn) - 1
+		tx.TxIn[i].ScriptSig = append(append([]byte{}, tx.TxIn[i].ScriptSig...), 0x51)
+		return true
+	}},
+	{"scriptsig-1", func(tx *btc.Tx, rng *rand.Rand) bool {
+		if len(tx.TxIn) == 0 || len(tx.TxIn[0].ScriptSig) == 0 {
+			return false
+		}
+		tx.TxIn[0].ScriptSig = tx.TxIn[0].ScriptSig[1:]
+		return true
+	}},
+	{"scriptsig-empty", func(tx *btc.Tx, rng *rand.Rand) bool {
+		if len(tx.TxIn) == 0 || len(tx.TxIn[0].ScriptSig) == 0 {
+			return false
+		}
+		tx.TxIn[0].ScriptSig = []byte{}
+		return true
+	}},
+	{"input+", func(tx *btc.Tx, rng *rand.Rand) bool {
+		in := &btc.TxIn{ScriptSig: rbytes(rng, rng.Intn(30)), Sequence: rng.Uint32()}
+		rng.Read(in.Input.Hash[:])
+		tx.TxIn = append(tx.TxIn, in)
+		if tx.SegWit != nil {
+			tx.SegWit = append(tx.SegWit, [][]byte{})
+		}
+		return tx.SegWit == nil || anyWitness(tx)
+	}},
+	{"input-", func(tx *btc.Tx, rng *rand.Rand) bool {
+		if len(tx.TxIn) < 2 {
+			return false
+		}
+		tx.TxIn = tx.TxIn[:len(tx.TxIn)-1]
+		if tx.SegWit != nil {
+			tx.SegWit = tx.SegWit[:len(tx.SegWit)-1]
+		}
+		return tx.SegWit == nil || anyWitness(tx)
+	}},
+	{"output+", func(tx *btc.Tx, rng *rand.Rand) bool {
+		if len(tx.TxIn) == 0 {
+			return false
+		}
+		tx.TxOut = append(tx.TxOut, &btc.TxOut{Value: rng.Uint64(), Pk_script: rbytes(rng, rng.Intn(40))})
+		return true
+	}},
+	{"output-", func(tx *btc.Tx, rng *rand.Rand) bool {
+		if len(tx.TxOut) == 0 {
+			return false
+		}
+		tx.TxOut = tx.TxOut[:len(tx.TxOut)-1]
+		return true
+	}},
+	{"pkscript+1", func(tx *btc.Tx, rng *rand.Rand) bool { // 252 -> 253: the length prefix grows too
+		if len(tx.TxOut) == 0 {
+			return false
+		}
+		tx.TxOut[0].Pk_script = append(append([]byte{}, tx.TxOut[0].Pk_script...), 0x6a)
+		return true
+	}},
+	{"witness-item+", func(tx *btc.Tx, rng *rand.Rand) bool {
+		if tx.SegWit == nil {
+			return false
+		}
+		i := len(tx.SegWit) - 1
+		tx.SegWit[i] = append(tx.SegWit[i], rbytes(rng, 1+rng.Intn(72)))
+		return true
+	}},
+	{"witness-item-", func(tx *btc.Tx, rng *rand.Rand) bool {
+		for i := range tx.SegWit {
+			if len(tx.SegWit[i]) > 0 {
+				tx.SegWit[i] = tx.SegWit[i][:len(tx.SegWit[i])-1]
+				return anyWitness(tx)
+			}
+		}
+		return false
+	}},
+	{"witness-emptied", func(tx *btc.Tx, rng *rand.Rand) bool { // no witness left: the transaction is a legacy one again
+		if tx.SegWit == nil {
+			return false
+		}
+		tx.SegWit = nil
+		return true
+	}},
+	{"segwit-nil-and-back", func(tx *btc.Tx, rng *rand.Rand) bool { // hashed as a legacy transaction in between
+		if tx.SegWit == nil {
+			return false
+		}
+		sw := tx.SegWit
+		tx.SegWit = nil
+		tx.SetHash(tx.SerializeNew())
+		_ = tx.WTxID()
+		tx.SegWit = sw
+		return true
+	}},
+	{"witness-added", func(tx *btc.Tx, rng *rand.Rand) bool { // a legacy transaction gets its first witness
+		if tx.SegWit != nil || len(tx.TxIn) == 0 {
+			return false
+		}
+		tx.SegWit = make([][][]byte, len(tx.TxIn))
+		tx.SegWit[0] = [][]byte{rbytes(rng, 72), rbytes(rng, 33)}
+		return true
+	}},
+	{"locktime", func(tx *btc.Tx, rng *rand.Rand) bool { tx.Lock_time ^= 0x01020304; return true }},
+	{"sequence", func(tx *btc.Tx, rng *rand.Rand) bool {
+		if len(tx.TxIn) == 0 {
+			return false
+		}
+		tx.TxIn[0].Sequence ^= 0x80000001
+		return true
+	}},
+}
+
+type txReport struct {
+	s1, s2        []byte
+	hash, wtxid   [32]byte
+	size, nowit   int
+	weight, vsize int
+}
+
+// the recomputation entry points, in three orders
+func recompute(tx *btc.Tx, order int) (r txReport) {
+	switch order {
+	case 0:
+		r.s2 = tx.SerializeNew()
+		r.s1 = tx.Serialize()
+		tx.SetHash(r.s2)
+	case 1:
+		tx.SetHash(tx.SerializeNew())
+		r.wtxid = tx.WTxID().Hash
+		r.s1 = tx.Serialize()
+		r.s2 = tx.SerializeNew()
+	default:
+		r.s1 = tx.Serialize()
+		tx.SetHash(tx.SerializeNew())
+		tx.SetHash(nil) // Raw is current: must change nothing
+		r.s2 = tx.SerializeNew()
+	}
+	r.hash, r.wtxid = tx.Hash.Hash, tx.WTxID().Hash
+	r.size, r.nowit = int(tx.Size), int(tx.NoWitSize)
+	r.weight, r.vsize = tx.Weight(), tx.VSize()
+	return
+}
+
+func (j *judge) compareEdited(what string, tx *btc.Tx, r txReport) {
+	rt, bad := fromDecoded(tx)
+	if rt == nil {
+		j.infra = append(j.infra, "edit stage: "+bad)
+		return
+	}
+	full, nowit := rt.ser(true), rt.ser(false)
+	txid := sha256d(nowit)
+	wtxid := txid
+	if rt.hasWit {
+		wtxid = sha256d(full)
+	}
+	if !bytes.Equal(r.s2, full) {
+		j.fail("edit:reencode", what+": SerializeNew() is not the serialisation of the edited transaction")
+	}
+	if !bytes.Equal(r.s1, nowit) {
+		j.fail("edit:serialize", what+": Serialize() is not the original-format serialisation of the edited transaction")
+	}
+	if r.hash != txid {
+		j.fail("edit:txid", fmt.Sprintf("%s: txid %x, the edited transaction has %x", what, r.hash, txid))
+	}
+	if r.wtxid != wtxid {
+		j.fail("edit:wtxid", fmt.Sprintf("%s: wtxid %x, the edited transaction has %x", what, r.wtxid, wtxid))
+	}
+	if r.size != len(full) || r.nowit != len(nowit) {
+		j.fail("edit:size", fmt.Sprintf("%s: Size/NoWitSize %d/%d, the edited transaction has %d/%d", what, r.size, r.nowit, len(full), len(nowit)))
+	}
+	if r.weight != 3*len(nowit)+len(full) || r.vsize != (3*len(nowit)+len(full)+3)/4 {
+		j.fail("edit:weight", fmt.Sprintf("%s: Weight()/VSize() %d/%d, the edited transaction has nowit %d, size %d", what, r.weight, r.vsize, len(nowit), len(full)))
+	}
+	// the same bytes decoded afresh must report the same txid
+	if t2, n2 := btc.NewTx(exact(full)); t2 != nil && n2 == len(full) {
+		t2.SetHash(full)
+		if t2.Hash.Hash != r.hash || t2.WTxID().Hash != r.wtxid {
+			j.fail("edit:fresh", what+": txid / wtxid of the edited object differ from those of its serialisation decoded afresh")
+		}
+	}
+}
+
+func (j *judge) editStage(raw []byte) {
+	rng := rand.New(rand.NewSource(int64(j.li)*7 + int64(len(raw))))
+	for _, e := range txEdits {
+		for order := 0; order < 3; order++ {
+			for pre := 0; pre < 2; pre++ { // pre = 1: the getters are called before the edit too (every cache is warm)
+				what := fmt.Sprintf("after edit %s (order %d, warm %d)", e.name, order, pre)
+				var tx *btc.Tx
+				var rep txReport
+				ok := true
+				g := guarded("edit:"+e.name, func() {
+					tx, _ = btc.NewTx(exact(raw))
+					if tx == nil {
+						ok = false
+						return
+					}
+					if pre == 1 {
+						recompute(tx, order)
+					}
+					if ok = e.apply(tx, rng); !ok {
+						return
+					}
+					rep = recompute(tx, order)
+				})
+				if !j.totality("edit:"+e.name, g) || !ok {
+					continue
+				}
+				j.compareEdited(what, tx, rep)
+				if e.name == "witness-emptied" || e.name == "scriptsig+23" { // ... and a second edit on the same object
+					g = guarded("edit:second", func() {
+						if txEdits[len(txEdits)-2].apply(tx, rng) { // locktime
+							rep = recompute(tx, (order+1)%3)
+						}
+					})
+					if j.totality("edit:second", g) {
+						j.compareEdited(what+" then locktime", tx, rep)
+					}
+				}
+				if len(j.fails) > 6 {
+					return
+				}
+			}
+		}
+	}
 }
 
 type blWant struct {
